@@ -75,6 +75,14 @@ void h_viol(const char *clause, const char *fmt, ...) {
 	send_result();
 	_exit(0);
 }
+static void on_capacity(const char *what) {
+	RES.verdict = V_SKIP;
+	snprintf(RES.clause, sizeof RES.clause, "simulator-capacity");
+	snprintf(RES.msg, sizeof RES.msg, "%s", what);
+	if (RC.verbose) fprintf(stderr, "SKIP: %s\n", what);
+	send_result();
+	_exit(0);
+}
 void h_done(void) {
 	if (RES.verdict != V_EXPECT_CRASH) RES.verdict = V_OK;
 	if (RC.verbose) fprintf(stderr, "OK hist=%016lx trace=%016lx\n", (unsigned long)RES.hist_hash, (unsigned long)sim_st.trace_hash);
@@ -235,7 +243,7 @@ static void child_run(void) {
 	if (replay_tape) sim_tape_load(replay_tape);
 	memset(&RES, 0, sizeof RES);
 	RES.hist_hash = 1469598103934665603ull;
-	sim_on_deadlock = on_deadlock; sim_on_stepcap = on_stepcap;
+	sim_on_deadlock = on_deadlock; sim_on_stepcap = on_stepcap; sim_on_capacity = on_capacity;
 	sim_seq_cb = h_stamp;
 	signal(SIGPIPE, SIG_IGN);
 	if (getenv("DSIM_TAPE_OUT") && !(RC.cfg & CFG_ASAN)) {
